@@ -1,6 +1,7 @@
 import UralModel.Model.FacebookScope
 import UralModel.Lemmas.Str
 import UralModel.Lemmas.StrSplit20
+import UralModel.Py.PctCodec
 /-!
 String toolkit for the facebook theorems (C19): `in` (`Py.contains`) as a structural
 function, `str.replace`, `str.split(sep, 1)`, `strip`, `pathsplit` of a path assembled from
@@ -200,6 +201,196 @@ theorem replace_prefix (a s : Str) (ha : a ≠ []) (h : hasInfix s a = false) :
 theorem find_of_prefix (s p : Str) (h : p.isPrefixOf s = true) : find s p = some 0 := by
   unfold find find.go
   simp [h]
+
+/-! ## `SLASH_SQUEEZE_RE.sub("/", s)` (`UrlParts.squeezeSlashes`) -/
+
+open Ural.UrlParts in
+theorem fsq_slash_slash (r : Str) : squeezeSlashes ('/' :: '/' :: r) = squeezeSlashes ('/' :: r) := by
+  simp [squeezeSlashes]
+
+open Ural.UrlParts in
+theorem fsq_cons_ne (c : Char) (r : Str) (h : c ≠ '/') : squeezeSlashes (c :: r) = c :: squeezeSlashes r := by
+  cases r with
+  | nil => simp [squeezeSlashes]
+  | cons d r => rw [squeezeSlashes]; intro _ h1 _; exact absurd h1 h
+
+open Ural.UrlParts in
+theorem fsq_slash_nil : squeezeSlashes ['/'] = ['/'] := by simp [squeezeSlashes]
+
+open Ural.UrlParts in
+theorem fsq_slash_ne (c : Char) (r : Str) (h : c ≠ '/') :
+    squeezeSlashes ('/' :: c :: r) = '/' :: squeezeSlashes (c :: r) := by
+  rw [squeezeSlashes]; intro _ _ h2; cases h2; exact absurd rfl h
+
+/-- two slashes in a row -/
+def dblSlash : Str := ['/', '/']
+
+open Ural.UrlParts in
+/-- a string without `//` is left alone -/
+theorem squeeze_of_noDbl (s : Str) (h : hasInfix s dblSlash = false) : squeezeSlashes s = s := by
+  induction s with
+  | nil => simp [squeezeSlashes]
+  | cons c r ih =>
+    rw [hasInfix_cons, Bool.or_eq_false_iff] at h
+    by_cases hc : c = '/'
+    · subst hc
+      cases r with
+      | nil => exact fsq_slash_nil
+      | cons d r' =>
+        by_cases hd : d = '/'
+        · subst hd
+          exact absurd h.1 (by simp [dblSlash, List.isPrefixOf])
+        · rw [fsq_slash_ne d r' hd, ih h.2]
+    · rw [fsq_cons_ne c r hc, ih h.2]
+
+open Ural.UrlParts in
+theorem squeeze_head (s : Str) : (squeezeSlashes s).head? = s.head? := by
+  induction s with
+  | nil => simp [squeezeSlashes]
+  | cons c r ih =>
+    by_cases hc : c = '/'
+    · subst hc
+      cases r with
+      | nil => rw [fsq_slash_nil]
+      | cons d r' =>
+        by_cases hd : d = '/'
+        · subst hd
+          rw [fsq_slash_slash, ih]; rfl
+        · rw [fsq_slash_ne d r' hd]; rfl
+    · rw [fsq_cons_ne c r hc]; rfl
+
+open Ural.UrlParts in
+/-- the result has no `//` -/
+theorem noDbl_squeeze (s : Str) : hasInfix (squeezeSlashes s) dblSlash = false := by
+  induction s with
+  | nil => simp [squeezeSlashes, hasInfix, dblSlash, List.isPrefixOf]
+  | cons c r ih =>
+    by_cases hc : c = '/'
+    · subst hc
+      cases r with
+      | nil => rw [fsq_slash_nil]; decide
+      | cons d r' =>
+        by_cases hd : d = '/'
+        · subst hd
+          rw [fsq_slash_slash]; exact ih
+        · rw [fsq_slash_ne d r' hd]
+          rw [fsq_cons_ne d r' hd] at ih ⊢
+          unfold dblSlash at ih ⊢
+          rw [hasInfix_cons_eq, ih]
+          simp [List.isPrefixOf]
+          exact fun e => hd e.symm
+    · rw [fsq_cons_ne c r hc]
+      unfold dblSlash at ih ⊢
+      rw [hasInfix_cons_ne c '/' _ _ hc]; exact ih
+
+open Ural.UrlParts in
+theorem squeeze_nil : squeezeSlashes [] = [] := by simp [squeezeSlashes]
+
+/-! ## the pieces of a split string without `//` -/
+
+theorem getLast?_cons_of_ne_nil {α : Type} (c : α) (r : List α) (h : r ≠ []) : (c :: r).getLast? = r.getLast? := by
+  cases r with
+  | nil => exact absurd rfl h
+  | cons d r' => simp [List.getLast?_cons_cons]
+
+/-- in a string without `//` that does not end with a slash, every piece of `split("/")` but
+the first is non-empty -/
+theorem splitOn_tail_ne_nil (s : Str) (h : hasInfix s dblSlash = false) (hl : s.getLast? ≠ some '/') :
+    ∀ x ∈ (splitOn s '/').tail, x ≠ [] := by
+  induction s with
+  | nil => simp [splitOn_nil]
+  | cons c r ih =>
+    rw [hasInfix_cons, Bool.or_eq_false_iff] at h
+    by_cases hc : c = '/'
+    · subst hc
+      rw [splitOn_cons_sep]
+      simp only [List.tail_cons]
+      cases r with
+      | nil => exact absurd rfl hl
+      | cons d r' =>
+        have hd : d ≠ '/' := by
+          intro e; subst e
+          exact absurd h.1 (by simp [dblSlash, List.isPrefixOf])
+        have hl' : (d :: r').getLast? ≠ some '/' := by
+          rw [getLast?_cons_of_ne_nil _ _ (by simp)] at hl; exact hl
+        have ih' := ih h.2 hl'
+        rw [splitOn_cons_ne _ _ _ hd] at ih' ⊢
+        cases hs : splitOn r' '/' with
+        | nil => simp
+        | cons p ps =>
+          rw [hs] at ih'
+          simp only [List.tail_cons] at ih'
+          intro x hx
+          simp only [List.mem_cons] at hx
+          rcases hx with hx | hx
+          · rw [hx]; simp
+          · exact ih' x hx
+    · rw [splitOn_cons_ne _ _ _ hc]
+      have hl' : r.getLast? ≠ some '/' := by
+        cases r with
+        | nil => simp
+        | cons d r' => rw [getLast?_cons_of_ne_nil _ _ (by simp)] at hl; exact hl
+      have ih' := ih h.2 hl'
+      cases hs : splitOn r '/' with
+      | nil => simp
+      | cons p ps =>
+        rw [hs] at ih'
+        simpa using ih'
+
+/-- the first piece of `split("/")` of a non-empty string that does not start with a slash is
+non-empty -/
+theorem splitOn_head_ne_nil (s : Str) (hne : s ≠ []) (hh : s.head? ≠ some '/') :
+    ∀ x, (splitOn s '/').head? = some x → x ≠ [] := by
+  cases s with
+  | nil => exact absurd rfl hne
+  | cons c r =>
+    have hc : c ≠ '/' := fun e => hh (by simp [e])
+    rw [splitOn_cons_ne _ _ _ hc]
+    cases splitOn r '/' <;> (intro x hx; simp at hx; rw [← hx]; simp)
+
+/-! ## `unquote` keeps a non-empty string non-empty -/
+
+theorem unquoteToBytes_ne_nil (t : Str) (h : t ≠ []) : unquoteToBytes t ≠ [] := by
+  cases t with
+  | nil => exact absurd rfl h
+  | cons c rest =>
+    unfold unquoteToBytes unquoteToBytesGo
+    split
+    · split <;> simp
+    · simp
+
+theorem utf8DecodeReplace_ne_nil (bs : Bytes) (h : bs ≠ []) : utf8DecodeReplace bs ≠ [] := by
+  cases bs with
+  | nil => exact absurd rfl h
+  | cons b rest =>
+    unfold utf8DecodeReplace
+    simp only [List.length_cons]
+    unfold utf8DecodeReplaceGo
+    split <;> simp
+
+theorem unquoteFlush_ne_nil (acc : Str) (h : acc ≠ []) : unquoteFlush acc ≠ [] := by
+  unfold unquoteFlush
+  exact utf8DecodeReplace_ne_nil _ (unquoteToBytes_ne_nil _ (by simpa using h))
+
+theorem unquoteRuns_ne_nil (s acc : Str) (h : s ≠ [] ∨ acc ≠ []) : unquoteRuns s acc ≠ [] := by
+  induction s generalizing acc with
+  | nil =>
+    unfold unquoteRuns
+    rcases h with h | h
+    · exact absurd rfl h
+    · exact unquoteFlush_ne_nil acc h
+  | cons c cs ih =>
+    unfold unquoteRuns
+    split
+    · exact ih _ (Or.inr (by simp))
+    · simp
+
+/-- `unquote(s) != ""` for `s != ""` -/
+theorem unquote_ne_nil (s : Str) (h : s ≠ []) : unquote s ≠ [] := by
+  unfold unquote
+  split
+  · exact unquoteRuns_ne_nil s [] (Or.inl h)
+  · exact h
 
 end Ural.Py
 
